@@ -185,3 +185,116 @@ func Normalise(evs []Event) []Event {
 	}
 	return out
 }
+
+// baseTypeOf maps an event kind to the BaseType a typed container announces for it.
+func baseTypeOf(k Kind) structform.BaseType {
+	switch k {
+	case Bool:
+		return structform.BoolType
+	case String:
+		return structform.StringType
+	case Int8:
+		return structform.Int8Type
+	case Int16:
+		return structform.Int16Type
+	case Int32:
+		return structform.Int32Type
+	case Int64:
+		return structform.Int64Type
+	case Int:
+		return structform.IntType
+	case Byte:
+		return structform.ByteType
+	case Uint8:
+		return structform.Uint8Type
+	case Uint16:
+		return structform.Uint16Type
+	case Uint32:
+		return structform.Uint32Type
+	case Uint64:
+		return structform.Uint64Type
+	case Uint:
+		return structform.UintType
+	case Float32:
+		return structform.Float32Type
+	case Float64:
+		return structform.Float64Type
+	}
+	return structform.AnyType
+}
+
+// Contract checks the Visitor contract on a complete event stream of one or more
+// values: balanced and properly nested starts/finishes; inside an object every
+// value is preceded by exactly one key; a container announcing a non-negative
+// length holds exactly that many elements; a container announcing an element type
+// other than AnyType/ZeroType holds only scalars of that type. Returns "" or the
+// first violation. Structure (kinds, lengths, types) is concrete on every path.
+func Contract(evs []Event) string {
+	type frame struct {
+		obj       bool
+		announced int
+		bt        structform.BaseType
+		count     int
+		haveKey   bool
+	}
+	var stack []frame
+	value := func(k Kind) string {
+		if len(stack) == 0 {
+			return ""
+		}
+		f := &stack[len(stack)-1]
+		if f.obj {
+			if !f.haveKey {
+				return "value without key inside object"
+			}
+			f.haveKey = false
+		}
+		f.count++
+		if f.bt != structform.AnyType && f.bt != structform.ZeroType {
+			if k == ArrStart || k == ObjStart || k == Nil || baseTypeOf(k) != f.bt {
+				return "element kind " + k.String() + " in container typed " + f.bt.String()
+			}
+		}
+		return ""
+	}
+	for _, e := range evs {
+		switch e.K {
+		case ObjStart, ArrStart:
+			if s := value(e.K); s != "" {
+				return s
+			}
+			stack = append(stack, frame{obj: e.K == ObjStart, announced: e.Len, bt: e.BT})
+		case ObjEnd, ArrEnd:
+			if len(stack) == 0 {
+				return "finish without start"
+			}
+			f := stack[len(stack)-1]
+			if f.obj != (e.K == ObjEnd) {
+				return "mismatched finish"
+			}
+			if f.haveKey {
+				return "key without value"
+			}
+			if f.announced >= 0 && f.count != f.announced {
+				return "announced length differs from delivered count"
+			}
+			stack = stack[:len(stack)-1]
+		case Key:
+			if len(stack) == 0 || !stack[len(stack)-1].obj {
+				return "key outside object"
+			}
+			if stack[len(stack)-1].haveKey {
+				return "two keys in a row"
+			}
+			stack[len(stack)-1].haveKey = true
+		default:
+			if s := value(e.K); s != "" {
+				return s
+			}
+		}
+	}
+	if len(stack) != 0 {
+		return "unbalanced: container not finished"
+	}
+	return ""
+}
